@@ -36,9 +36,10 @@ type ggen struct {
 	loop     int     // nesting depth of loops
 	sw       int     // nesting depth of switch cases
 	budget   int
-	faults   int  // remaining injected faults (ill-typed stream)
-	cbs      bool // registered callbacks
-	pureOnly int  // >0: no side effects (map literal fields)
+	faults   int    // remaining injected faults (ill-typed stream)
+	cbs      bool   // registered callbacks
+	cbParams string // parameter list of the callback being generated
+	pureOnly int    // >0: no side effects (map literal fields)
 }
 
 type gfn struct {
@@ -178,6 +179,10 @@ func (g *ggen) num(depth int) string {
 		return "len ( " + g.mapLit(depth-1) + " )"
 	case 12:
 		if g.pureOnly == 0 {
+			if g.fault() {
+				// surplus arguments to a parameterless builtin: wrong arity, reported as an error
+				return term.Pick(g.r, []string{"rand ( 1 )", "rand ( nosuchname )", "rand ( 1 , 2 )"})
+			}
 			return "rand ( )"
 		}
 		return g.numLit()
@@ -271,6 +276,9 @@ func (g *ggen) condBuiltin(depth int) string {
 	}
 	switch g.r.Intn(9) {
 	case 0:
+		if g.fault() {
+			return term.Pick(g.r, []string{"skill_points ( 1 )", "len ( enemies ( 1 ) )", "len ( characters ( nosuchname ) )"})
+		}
 		return "skill_points ( )"
 	case 1:
 		return "has_modifier ( " + g.targetOf("") + " , " + term.Pick(g.r, []string{"\"mod1\"", "\"mod2\"", "\"none\""}) + " )"
@@ -861,6 +869,11 @@ func (g *ggen) cbBody(kind string) string {
 	g.sb = strings.Builder{}
 	g.w("{")
 	g.push()
+	if g.cbParams != "" {
+		// a callback that declares parameters reads them: each registration has its own binding (the
+		// character id, then the callback itself), whatever other callbacks or program variables are called
+		g.w("print ( t , type ( t ) ) ;")
+	}
 	g.inFn++
 	saveLoop, saveSw := g.loop, g.sw
 	g.loop, g.sw = 0, 0
@@ -935,22 +948,31 @@ func (g *ggen) stmtRegister() {
 		g.w("set_default_action ( " + t + " , " + a + " ) ;")
 	case 1, 2:
 		ps := ""
-		if g.r.Chance(1, 5) || effectful {
+		if g.r.Chance(2, 5) || effectful {
 			ps = term.Pick(g.r, []string{"t", "t , f"})
 		}
 		if g.fault() {
 			ps = "t , f , u"
+		}
+		g.cbParams = ps
+		if ps != "" && !g.fault() && g.r.Chance(1, 3) {
+			// a program variable named like the parameter must not be touched by the registration
+			g.w("let t = " + g.numLit() + " ;")
+			g.top().vars["t"] = "num"
 		}
 		g.w("register_skill_cb ( " + t + " , fn ( " + ps + " ) " + g.cbBody("skill") + " ) ;")
+		g.cbParams = ""
 	default:
 		ps := ""
-		if g.r.Chance(1, 5) || effectful {
+		if g.r.Chance(2, 5) || effectful {
 			ps = term.Pick(g.r, []string{"t", "t , f"})
 		}
 		if g.fault() {
 			ps = "t , f , u"
 		}
+		g.cbParams = ps
 		g.w("register_ult_cb ( " + t + " , fn ( " + ps + " ) " + g.cbBody("ult") + " ) ;")
+		g.cbParams = ""
 	}
 }
 
